@@ -16,8 +16,10 @@
     epilogue restores the caller's registers and returns eBPF r0 in rax (stack machine X86Stk.v); (8) composed
     (theories/JitStep.v, JitRun.v): with eBPF register k in x86 register REGISTER_MAP[k] and R10 = packet address, the
     sequence emitted for any accepted instruction other than a call simulates the ISA step whenever that succeeds
-    (C03_step_simulates), and the code of a whole program without calls returns the ISA's value and memory for every
-    input, budget and content of the other registers (C03_run_refines).  The other opcodes (helper
+    (C03_step_simulates), the sequence around a helper call gives the helper r1..r5, defines r0 and brings r6..r10 back
+    whatever the helper leaves in the caller-saved registers (C03_helper_call_simulates), and the code of a whole program
+    whose calls are helper calls returns the ISA's value and memory for every input, budget, content of the other
+    registers and garbage left by the helpers (C03_run_refines).  The other opcodes (helper
     calls: C08; local calls: C07; prologue: C09; exit = ret) and what the CPU does with the bytes are exercised by checks/C03.py (every opcode x every register
     pair x boundary immediates / displacements x control-flow shapes x 4 VM kinds) against the interpreter. *)
 From Coq Require Import ZArith List Bool.
@@ -171,7 +173,7 @@ Proof. vm_compute. repeat split. Qed.
     ISA step succeeds, the emitted sequence ends -- at the ISA's next pc, with the ISA's memory -- in a related register
     file with R10 unchanged; `exit` returns the ISA's value.  (The JIT makes no bounds check: nothing is said about steps
     the ISA refuses.  A packet-relative load with a negative immediate is excluded: the JIT sign-extends it.) *)
-Theorem C03_step_simulates : forall E i reg R next fidx stacks m st,
+Theorem C03_step_simulates : forall g E i reg R next fidx stacks m st,
   ArmBase.regs_ok reg -> jrel reg R -> R 10 = e_mem_base E -> mem_ok m ->
   wf_insn i -> 0 <= dst i <= 10 -> 0 <= src i <= 10 -> In (opc i) cl_ops -> opc i <> op_call ->
   ((opc i =? op_le) || (opc i =? op_be) = true -> In (imm i) [16; 32; 64]) ->
@@ -181,37 +183,62 @@ Theorem C03_step_simulates : forall E i reg R next fidx stacks m st,
   isa_exec E i reg next fidx stacks m = Ok st ->
   match st with
   | SNext (reg', pc', _, _, m') =>
-      ArmBase.regs_ok reg' -> exists R', jit_exec E i next R m = Ok (JNext R' pc' m') /\ jrel reg' R' /\ R' 10 = R 10
-  | SRet r m' => jit_exec E i next R m = Ok (JRet r m')
+      ArmBase.regs_ok reg' -> exists R', jit_exec g E i next R m = Ok (JNext R' pc' m') /\ jrel reg' R' /\ R' 10 = R 10
+  | SRet r m' => jit_exec g E i next R m = Ok (JRet r m')
   end.
 Proof. exact jit_exec_simulates. Qed.
 
-(** whole executions: every accepted program without calls, every input, every budget, every register file the prologue
-    can leave (R10 = packet address, rbp = top of the 512-byte stack: C09_jit_prologue_...; all other registers arbitrary) *)
-Theorem C03_run_refines : forall E m0 fuel R0 r m',
+(** a helper call (C08): the emitted sequence (mov rcx <- r9; push r10 twice; call; pop r10 twice) around any helper that
+    honours the System V ABI -- returns in rax, keeps rbx, rbp, r12-r15, leaves [g r] (anything) in every other register --
+    gives the registered function the values of r1..r5, puts its result in r0 and brings r6..r10 and R10 back; r1..r5 then
+    hold the helper's garbage, which [clobber g] writes into the eBPF view *)
+Theorem C03_helper_call_simulates : forall g E i reg R next m f,
+  ArmBase.regs_ok reg -> jrel reg R -> env_ok E -> wf_insn i ->
+  opc i = op_call -> src i = 0 -> e_helpers E (u32 (imm i)) = Some f ->
+  exists R', jit_exec g E i next R m = Ok (JNext R' next m) /\
+    jrel (clobber g (set_reg reg 0 (f (rd reg 1) (rd reg 2) (rd reg 3) (rd reg 4) (rd reg 5)))) R' /\ R' 10 = R 10.
+Proof. exact jit_call_sim. Qed.
+
+(** whole executions: every accepted program whose calls are helper calls, every input, every budget, every register file
+    the prologue can leave (R10 = packet address, rbp = top of the 512-byte stack: C09_jit_prologue_...; all other
+    registers arbitrary), every garbage [clob] the helpers may leave in the caller-saved registers.  The reference
+    [isa_steps_c] is the ISA run in which r1-r5 hold that garbage after a helper call: a program "does not depend on r1-r5
+    after a helper call" when its ISA result is the same for every [clob], and then this is the plain ISA result. *)
+Theorem C03_run_refines : forall E m0 clob fuel R0 r m',
   bytes_ok (e_prog E) -> acc (e_prog E) -> env_ok E -> mem_ok m0 ->
   (forall k, In k (starts (e_prog E)) ->
-     opc (insn_at (e_prog E) k) <> op_call /\ (opc (insn_at (e_prog E) k) mod 8 = 0 -> 0 <= imm (insn_at (e_prog E) k))) ->
+     (opc (insn_at (e_prog E) k) = op_call ->
+        src (insn_at (e_prog E) k) = 0 /\ e_helpers E (u32 (imm (insn_at (e_prog E) k))) <> None) /\
+     (opc (insn_at (e_prog E) k) mod 8 = 0 -> 0 <= imm (insn_at (e_prog E) k))) ->
   (forall x, 0 <= R0 x < 2 ^ 64) -> R0 10 = e_mem_base E -> R0 (ez 10) = e_stack_base E + e_stack_len E ->
-  isa_steps fuel E (regs_of R0, 0, 0, stacks0, m0) = ODone r m' ->
-  jit_steps fuel E (R0, 0, m0) = ODone r m'.
+  isa_steps_c clob fuel E (regs_of R0, 0, 0, stacks0, m0) = ODone r m' ->
+  jit_steps clob fuel E (R0, 0, m0) = ODone r m'.
 Proof. exact jit_run_refines. Qed.
 
-(** non-vacuity: ldxw r0,[r1+0]; add r0,5; stxw [r10-4],r0; ldxw r3,[r10-4]; mov r0,r3; be32 r0; exit on the packet
-    01 02 03 04, from a register file with junk in the unmapped and unwritten registers *)
-Definition jrun_prog : list Z := hexbytes 56 0x61100000000000000700000005000000630afcff0000000061a3fcff00000000bf30000000000000dc000000200000009500000000000000.
+(** without helper calls the reference is the plain ISA run *)
+Theorem C03_reference_without_calls : forall E clob fuel,
+  (forall k, opc (insn_at (e_prog E) k) <> op_call) -> forall s, isa_steps_c clob fuel E s = isa_steps fuel E s.
+Proof. exact isa_steps_c_nocall. Qed.
+
+(** non-vacuity: the program
+    ldxw r0,[r1+0]; add r0,5; stxw [r10-4],r0; mov r1,r0; call 1; ldxw r3,[r10-4]; add r0,r3; be32 r0; exit
+    with helper 1 = (fun a _ _ _ _ => a + 1), on the packet 01 02 03 04, from a register file with junk in the unmapped and
+    unwritten registers and junk left by the helper *)
+Definition jrun_prog : list Z := hexbytes 72 0x61100000000000000700000005000000630afcff00000000bf01000000000000850000000100000061a3fcff000000000f30000000000000dc000000200000009500000000000000.
+Definition jrun_helpers (k : Z) : option helper := if k =? 1 then Some (fun a _ _ _ _ => (a + 1) mod 2 ^ 64) else None.
 Definition jrun_env : ienv :=
-  mk_env jrun_prog (fun _ => None) (usage_map jrun_prog None)
+  mk_env jrun_prog jrun_helpers (usage_map jrun_prog None)
          {| r_base := 0x10000000; r_data := [] |} {| r_base := 0x20000000; r_data := [1; 2; 3; 4] |} 0x30000000 [].
 Definition jrun_mem : mem :=
   mk_mem {| r_base := 0x10000000; r_data := [] |} {| r_base := 0x20000000; r_data := [1; 2; 3; 4] |} 0x30000000
          {| r_base := 0x40000000; r_data := [] |}.
 Definition jrun_R0 : regs := fun x => if x =? 10 then 0x20000000 else if x =? 7 then 0x20000000 else if x =? 5 then 0x30000200 else 0xdead0000 + x.
+Definition jrun_clob (f : nat) (r : Z) : Z := 0xbad00000 + Z.of_nat f * 16 + r.
 Example C03_run_example :
   accb jrun_prog = true /\ bytes_okb jrun_prog = true /\ jrun_R0 10 = e_mem_base jrun_env /\
   jrun_R0 (ez 10) = e_stack_base jrun_env + e_stack_len jrun_env /\
-  (exists m, isa_steps 100 jrun_env (regs_of jrun_R0, 0, 0, stacks0, jrun_mem) = ODone 0x06020304 m /\
-             jit_steps 100 jrun_env (jrun_R0, 0, jrun_mem) = ODone 0x06020304 m).
+  (exists m, isa_steps_c jrun_clob 100 jrun_env (regs_of jrun_R0, 0, 0, stacks0, jrun_mem) = ODone 0x0d040608 m /\
+             jit_steps jrun_clob 100 jrun_env (jrun_R0, 0, jrun_mem) = ODone 0x0d040608 m).
 Proof.
   split; [vm_compute; reflexivity|]. split; [vm_compute; reflexivity|]. split; [reflexivity|]. split; [vm_compute; reflexivity|].
   eexists. split; vm_compute; reflexivity.
@@ -236,3 +263,5 @@ Print Assumptions C03_jump_targets.
 Print Assumptions C03_call_targets.
 Print Assumptions C03_step_simulates.
 Print Assumptions C03_run_refines.
+Print Assumptions C03_helper_call_simulates.
+Print Assumptions C03_reference_without_calls.
